@@ -233,9 +233,24 @@ class FramingDriver:
                 body = m.body or []
                 types = refwire.split(m.signature or '')
                 vals = []
-                for t, x in zip(types, body):
+
+                def walk(t, x):
+                    # descriptors in signature order, wherever they sit (struct members, array elements, dict values)
                     if t == 'h':
                         vals.append((x - FD0) if isinstance(x, int) and not isinstance(x, bool) else 0)
+                    elif t[0] == '(':
+                        for tt, xx in zip(refwire.split(t[1:-1]), x):
+                            walk(tt, xx)
+                    elif t[0] == 'a' and t[1] == '{':
+                        kt, vt = refwire.split(t[2:-1])
+                        for k in x:                   # decoded dicts keep wire order
+                            walk(kt, k)
+                            walk(vt, x[k])
+                    elif t[0] == 'a':
+                        for xx in x:
+                            walk(t[1:], xx)
+                for t, x in zip(types, body):
+                    walk(t, x)
                 res.append(tuple(vals))
             st['resolved'] = tuple(res)
         else:
